@@ -195,6 +195,22 @@ def spec_step(d, mx, e, note=None):
         d2 = dict(d)
         d2["o"] = opts[:idx] + opts[idx + 1:]
         return 1, d2
+    if k == "A":                                  # coap_add_option: not once there is payload
+        n, v = int(e[1]), show(tok_bytes(e[2]))
+        if d["p"] != "-":
+            return 0, d
+        return add_internal(d, mx, n, v, note)
+    if k == "D":                                  # coap_add_data
+        pl = tok_bytes(e[1])
+        if not pl:
+            return 1, d
+        if d["p"] != "-" or not fits(mx, used(d) + len(pl) + 1):
+            return 0, d
+        if note is not None:
+            note.append("data")
+        d2 = dict(d)
+        d2["p"] = show(pl)
+        return 1, d2
     if k == "K":
         t = tok_bytes(e[1])
         if len(t) > 65804:
@@ -252,7 +268,7 @@ def split_case(line):
     edits = []
     k = 0
     while k < len(rest):
-        w = 3 if rest[k] in ("I", "U") else 2
+        w = 3 if rest[k] in ("I", "U", "A") else 2
         edits.append(rest[k:k + w])
         k += w
     return pre, edits, dup
@@ -312,7 +328,7 @@ def aimed_number(r, nums):
 
 def gen_case(r, big=False):
     proto = r.choice(["udp", "udp", "udp", "tcp", "ws"])
-    amode = r.choice([1, 1, 1, 0])
+    amode = r.choice([1, 1, 1, 0, 2]) if proto == "udp" else r.choice([1, 1, 1, 0])
     x = r.random()
     code = r.choice([1, 2, 3, 4]) if x < 0.6 else r.choice([65, 68, 69, 132, 160]) if x < 0.9 \
         else r.choice([225, 226, 228, 100, 255])
@@ -353,6 +369,17 @@ def gen_case(r, big=False):
                 cur.append(n)
                 cur.sort()
             grow += l + 5
+        elif z < 0.58:
+            n = aimed_number(r, cur)
+            l = pick_vlen(r, big, n)
+            edits.append(["A", str(n), gen_wire.btok(r, l)])
+            cur.append(n)
+            cur.sort()
+            grow += l + 5
+        elif z < 0.60:
+            l = r.choice([0, 1, 2, 13, 64, 300])
+            edits.append(["D", gen_wire.btok(r, l)])
+            grow += l + 1
         elif z < 0.85:
             if cur and r.random() < 0.85:
                 w = r.random()
